@@ -2025,6 +2025,7 @@ class WassersteinVectorizer(BaseEstimator, TransformerMixin):
                         metric=metric,
                         max_distribution_size=self.max_distribution_size,
                         chunk_size=chunk_size,
+                        spherical_vectors=(metric == cosine),
                     )
 
                     result_blocks.append(block @ self.components_.T)
@@ -2189,6 +2190,7 @@ class WassersteinVectorizer(BaseEstimator, TransformerMixin):
                     metric=metric,
                     max_distribution_size=self.max_distribution_size,
                     chunk_size=chunk_size,
+                    spherical_vectors=(metric == cosine),
                 )
 
                 result_blocks.append(block @ self.components_.T)
